@@ -153,6 +153,8 @@ def set_sampler(rnd, mod, spec, depth):
         s.format = rnd.choice(list(S.Format))
         s.channels = rnd.choice(list(S.Channels))
         s.data = bytes(rnd.randrange(256) for _ in range(rnd.choice([0, 1, 7, 8, 64, rnd.randrange(300)])))
+        if rnd.random() < 0.03:          # scale: PCM data beyond 64 KiB
+            s.data = bytes(rnd.getrandbits(8) for _ in range(65536 + rnd.choice([0, 1, 8, 4096])))
         s.loop_start, s.loop_len = rnd.choice([0, 5, u32(rnd)]), rnd.choice([0, 9, u32(rnd)])
         s.volume = rnd.randrange(65)
         s.finetune = rnd.randint(-128, 127)
@@ -352,6 +354,44 @@ def chain_meta(rnd, spec, width=None):
             pass
     set_common(rnd, outer, False)
     return outer
+
+
+def large_project(rnd, spec, nmods=270):
+    """Scale: more than 256 modules (light-weight types), links between positions above 255, one module with 100+ inputs,
+    a pattern with hundreds of lines and 16+ tracks whose notes name high module numbers, a pattern list longer than 256."""
+    import rv.api as api
+    cl = classes()
+    light = [cl[k] for k in ("Amplifier", "Filter", "Distortion", "Reverb", "Delay", "Echo", "LFO", "Compressor") if k in cl]
+    p = api.Project()
+    p.name = "large"
+    mods = []
+    for k in range(nmods):
+        if k in (130, 200):
+            p.attach_module(None)
+            continue
+        m = rnd.choice(light)()
+        set_controllers(rnd, m, spec[m.mtype], "random")
+        m.name = "m%d" % k
+        m.x, m.y = i32(rnd), i32(rnd)
+        mods.append(p.attach_module(m, loading=True))
+    hub = mods[-1]
+    for s in rnd.sample(mods[:-1], 110):            # 100+ links into one module
+        p.connect(s, hub)
+    for _ in range(150):
+        a, b = rnd.choice(mods[200:]), rnd.choice(mods[200:])
+        p.connect(a, b)
+    for a in rnd.sample(mods, 20):
+        p.connect(~a, hub)                          # freed slots in a long table
+    p.connect(hub, p.output)
+    big = api.Pattern(tracks=rnd.choice([16, 17, 32]), lines=rnd.choice([256, 300, 513]), name="big")
+    for _ in range(400):
+        n = big.data[rnd.randrange(big.lines)][rnd.randrange(big.tracks)]
+        n.note, n.vel, n.module = rnd.choice(list(api.NOTECMD)), rnd.randrange(130), rnd.choice([1, 256, 257, 269, 270, 1000, 65535])
+        n.ctl, n.val = rnd.randrange(65536), rnd.randrange(65536)
+    p.attach_pattern(big)
+    for k in range(262):
+        p.attach_pattern(api.PatternClone(source=rnd.choice([0, 255, 256]), x=k * 4, y=rnd.choice([0, 32, -32])) if k % 5 else None)
+    return p
 
 
 def rand_module(rnd, cls, spec, depth=1, in_project=True, mode="random"):
